@@ -33,6 +33,11 @@ cd /verif && git checkout -- evidence 2>/dev/null
 import json,sys
 P,N,SRC,D0,D1,SUITE,RES=sys.argv[1:8]
 src=json.load(open(SRC)) if SRC and SRC!='-' else {}
+import os
+old=f"/verif/seeded/{P}_{N}/meta.json"
+if SUITE=="skipped" and os.path.exists(old):
+    try: SUITE=json.load(open(old))["confirmed"]["repo_suite_with_change"]+" (from the first confirmation run)"
+    except Exception: pass
 meta={"property":P,"name":N,"summary":src.get("summary"),"needs_to_manifest":src.get("needs_to_manifest"),
  "confirmed":{"demo_exit_without_change":int(D0),"demo_exit_with_change":int(D1),"repo_suite_with_change":SUITE,
               "checks_against_changed_tree":json.loads(RES)},
